@@ -52,6 +52,10 @@ Nest  == << OAssign("n", ELit2(<< <<0>>, <<1, 0>> >>)), OAssign("n", ELit2(<< <<
             OPop(N), OPop(N1), OSwap(N, 0, 1), ORemove(N, 0), OClear(N0), OClear(M),
             OFind(N, ELit(<<0>>)), OContains(N, EVar("a")), OGet(N, 1), OGet(N0, 0), OIter(N), OLen(N), OIsEmpty(N0) >>
 
+\* array.filled with an array as the value: the result's elements and the template are all independent of each other
+Fill  == << OAssign("a", ELit(<<0, 1>>)), OAssign("n", EFilledV("a", 2)), OPush(A, EInt(1)), OPush(N1, EInt(0)), OPop(N1),
+            OPush(N0, EInt(1)), OIter(N), OIter(A) >>
+
 \* medium alphabet: every operation kind, the interesting index / alias variants
 FlatM == << OAssign("a", ELit(<<0, 1>>)), OAssign("a", ELit(<<1, 0, 1>>)), OAssign("a", EFilled(1, 2)),
             OAssign("b", EVar("a")), OAssign("b", EClone(A)), OAssign("a", EVar("b")),
@@ -62,14 +66,14 @@ FlatM == << OAssign("a", ELit(<<0, 1>>)), OAssign("a", ELit(<<1, 0, 1>>)), OAssi
             OClear(A), OFind(A, EInt(0)), OContains(A, EInt(1)), OIter(A), OIter(B) >>
 
 Job(fam, maxlen) == [fam |-> fam, maxlen |-> maxlen]
-Plans == [quick       |-> {Job("flatR", 3), Job("flatF", 2), Job("nest", 2)},
-          thorough    |-> {Job("flatR", 4), Job("flatM", 3), Job("flatF", 2), Job("nest", 3)},
+Plans == [quick       |-> {Job("flatR", 3), Job("flatF", 2), Job("nest", 2), Job("fill", 4)},
+          thorough    |-> {Job("flatR", 4), Job("flatM", 3), Job("flatF", 2), Job("nest", 3), Job("fill", 5)},
           simquick    |-> {Job("sim", 30)},
           simthorough |-> {Job("sim", 30), Job("sim", 60)}]
 
 Fam == job.fam
-Alpha == CASE Fam = "flatR" -> FlatR [] Fam = "flatM" -> FlatM [] Fam = "flatF" -> FlatF [] Fam = "nest" -> Nest [] OTHER -> <<>>
-Vars == CASE Fam \in {"flatR", "flatM", "flatF"} -> <<"a", "b">> [] Fam = "nest" -> <<"a", "n", "m">> [] OTHER -> <<"a", "b", "n", "m">>
+Alpha == CASE Fam = "flatR" -> FlatR [] Fam = "flatM" -> FlatM [] Fam = "flatF" -> FlatF [] Fam = "nest" -> Nest [] Fam = "fill" -> Fill [] OTHER -> <<>>
+Vars == CASE Fam \in {"flatR", "flatM", "flatF"} -> <<"a", "b">> [] Fam \in {"nest", "fill"} -> <<"a", "n", "m">> [] OTHER -> <<"a", "b", "n", "m">>
 MaxLen == job.maxlen
 
 Stat0 == [err |-> "", why |-> "", inm |-> TRUE, eouts |-> {}]
